@@ -192,6 +192,9 @@ Fixpoint canon_err (e : err) : string :=
       ("ELookupKind " ++ hx p ++ " " ++ hx k ++ " " ++ hx pa ++ " " ++ hx tr ++ " " ++ hx kd)%string
   | ERawString k => sp "ERawString" (hx k)
   | EKeyValueList => "EKeyValueList"
+  | EJsonKey k => sp "EJsonKey" (hx k)
+  | EJsonValueList => "EJsonValueList"
+  | ETagged t => sp "ETagged" (hx t)
   | ERenderNonMapping k => sp "ERenderNonMapping" (hx k)
   | EResolving e => sp "EResolving" (canon_err e)
   | EClassNotFound c => sp "EClassNotFound" (hx c)
